@@ -32,9 +32,12 @@ type op struct {
 	kind    string // e.g. neo.transfer, policy.block, kv.invoke
 	line    string // the decoded op line for the model (without result)
 	tx      *transaction.Transaction
-	model   bool // the Lean model predicts the result of this op
-	votes   bool // may change NEO votes / candidates when it HALTs (recompute trigger in the real code)
-	blkCand bool // policy.block / policy.unblock aimed at a registered candidate's own account
+	model   bool   // the Lean model predicts the result of this op
+	votes   bool   // may change NEO votes / candidates when it HALTs (recompute trigger in the real code)
+	blkCand bool   // policy.block / policy.unblock aimed at a registered candidate's own account
+	wlKey   string // setWhitelistFeeContract / removeWhitelistFeeContract: "<contract token> <method>"
+	wlFee   int64
+	wlDel   bool
 	result  string
 }
 
@@ -68,6 +71,7 @@ func newWorld(r *prng.R, tb *chainx.TB, net *chainx.Net, a *chainx.Node) *world 
 		w.toks[net.Account(i)] = fmt.Sprintf("k%d", i)
 	}
 	w.toks[w.val.ScriptHash()] = "val"
+	w.toks[nativehashes.Treasury] = "treasury"
 	for i := range w.slots {
 		w.slots[i] = &slot{}
 	}
@@ -159,7 +163,10 @@ func (w *world) mkTx(script []byte, sysFeeAdd int64, signers ...neotest.Signer) 
 func (w *world) mkTxMul(script []byte, mul, sysFeeAdd int64, signers ...neotest.Signer) *transaction.Transaction {
 	tx := transaction.New(script, 0)
 	tx.Nonce = uint32(w.r.U64())
-	tx.ValidUntilBlock = w.bc().BlockHeight() + 1 + uint32(w.r.Intn(3))
+	tx.ValidUntilBlock = w.bc().BlockHeight() + 1 + uint32(w.r.Intn(int(min(3, max(1, w.bc().GetMaxValidUntilBlockIncrement())))))
+	if w.r.Chance(1, 8) { // an attribute priced by Policy.getAttributeFee (verification-time fee, per signer)
+		tx.Attributes = []transaction.Attribute{{Type: transaction.ConflictsT, Value: &transaction.Conflicts{Hash: util.Uint256(w.r.Bytes(32))}}}
+	}
 	for _, s := range signers {
 		tx.Signers = append(tx.Signers, transaction.Signer{Account: s.ScriptHash(), Scopes: transaction.Global})
 	}
@@ -168,7 +175,8 @@ func (w *world) mkTxMul(script []byte, mul, sysFeeAdd int64, signers ...neotest.
 	// Margin: the fee was measured against the pre-block state; earlier transactions of the same
 	// block may change prices.
 	tx.SystemFee = tx.SystemFee*mul + 1_0000_0000 + sysFeeAdd
-	tx.NetworkFee += 1_0000_0000
+	// no margin on the network fee: it is checked against the pre-block state, the one it was computed on, so a
+	// replica whose cached fee-per-byte / attribute fee drifted from storage rejects (or would under-charge) it
 	for _, s := range signers {
 		if err := s.SignTx(w.bc().GetConfig().Magic, tx); err != nil {
 			panic(err)
@@ -346,11 +354,95 @@ func (w *world) opNativeSetting(which int, v int64) *op {
 		return w.committeeOp("notary.setMaxNotValidBeforeDelta", nativehashes.Notary, "setMaxNotValidBeforeDelta", fmt.Sprint(v), false, false, v)
 	case 3:
 		return w.committeeOp("oracle.setPrice", nativehashes.OracleContract, "setPrice", fmt.Sprint(v), false, false, v)
-	case 4:
-		return w.committeeOp("policy.setAttributeFee", nativehashes.PolicyContract, "setAttributeFee", fmt.Sprint(v), false, false, int64(transaction.ConflictsT), v)
 	default:
+		return w.committeeOp("oracle.setPrice", nativehashes.OracleContract, "setPrice", fmt.Sprint(v), false, false, v)
+	}
+}
+
+var attrTypes = []transaction.AttrType{transaction.HighPriority, transaction.OracleResponseT, transaction.NotValidBeforeT, transaction.ConflictsT, transaction.NotaryAssistedT}
+
+// opPolicyMisc: the Policy/Management setters beyond the three modelled ones (search-only).
+func (w *world) opPolicyMisc(which int) *op {
+	r := w.r
+	switch which {
+	case 0:
+		t := attrTypes[r.Intn(len(attrTypes))]
+		v := int64(r.Intn(5_0000_0000))
+		return w.committeeOp("policy.setAttributeFee", nativehashes.PolicyContract, "setAttributeFee", fmt.Sprintf("%d %d", t, v), false, false, int64(t), v)
+	case 1:
+		mtb := int64(w.bc().GetMaxTraceableBlocks())
+		v := 2 + int64(r.Intn(int(max(1, mtb-2))))
+		return w.committeeOp("policy.setMaxValidUntilBlockIncrement", nativehashes.PolicyContract, "setMaxValidUntilBlockIncrement", fmt.Sprint(v), false, false, v)
+	case 2:
+		mtb := int64(w.bc().GetMaxTraceableBlocks())
+		v := mtb - int64(r.Intn(3))
+		return w.committeeOp("policy.setMaxTraceableBlocks", nativehashes.PolicyContract, "setMaxTraceableBlocks", fmt.Sprint(v), false, false, v)
+	case 3:
+		v := int64(r.Intn(20_0000_0000))
+		return w.committeeOp("management.setMinimumDeploymentFee", nativehashes.ContractManagement, "setMinimumDeploymentFee", fmt.Sprint(v), false, false, v)
+	default:
+		v := int64(1 + r.Intn(30000))
 		return w.committeeOp("policy.setMillisecondsPerBlock", nativehashes.PolicyContract, "setMillisecondsPerBlock", fmt.Sprint(v), false, false, v)
 	}
+}
+
+var kvMethods = []struct {
+	name string
+	argc int
+}{{"put", 2}, {"get", 1}, {"del", 1}, {"fill", 2}, {"ver", 0}}
+
+// opWhitelist: Policy.setWhitelistFeeContract / removeWhitelistFeeContract for a method of a generated contract;
+// the same (contract, method) is set again and again with different fees.
+func (w *world) opWhitelist(si int, remove bool) *op {
+	s := w.slots[si]
+	m := kvMethods[w.r.Weighted([]int{6, 3, 2, 2, 1})]
+	if remove {
+		return w.whitelistOp(s.hash, m.name, m.argc, 0, true)
+	}
+	return w.whitelistOp(s.hash, m.name, m.argc, int64(w.r.Intn(3))*int64(w.r.Intn(5000_0000)), false)
+}
+
+func (w *world) whitelistOp(h util.Uint160, method string, argc int, fee int64, remove bool) *op {
+	var o *op
+	if remove {
+		o = w.committeeOp("policy.removeWhitelistFeeContract", nativehashes.PolicyContract, "removeWhitelistFeeContract",
+			fmt.Sprintf("%s %s", w.tok(h), method), false, false, h, method, int64(argc))
+	} else {
+		o = w.committeeOp("policy.setWhitelistFeeContract", nativehashes.PolicyContract, "setWhitelistFeeContract",
+			fmt.Sprintf("%s %s %d", w.tok(h), method, fee), false, false, h, method, int64(argc), fee)
+	}
+	if o != nil {
+		o.wlKey, o.wlFee, o.wlDel = w.tok(h)+" "+method, fee, remove
+	}
+	return o
+}
+
+// opRecoverFund: Policy.recoverFund of a blocked account (needs a year of block time since the blocking and the
+// "almost full" committee multisignature).
+func (w *world) opRecoverFund(acc util.Uint160) *op {
+	p := w.payer()
+	if p < 0 {
+		return nil
+	}
+	pubs, err := w.bc().GetCommittee()
+	if err != nil {
+		return nil
+	}
+	n := len(pubs)
+	m := max(max(1, n-(n-1)/2), n-2)
+	cs := w.net.Multi(m, pubs)
+	if w.isBlocked(cs.ScriptHash()) {
+		return nil
+	}
+	token, kind, model := nativehashes.GasToken, "policy.recoverFund.gas", false
+	if w.r.Bool() {
+		token, kind, model = nativehashes.NeoToken, "policy.recoverFund.neo", true
+	}
+	tx := w.mkTx(callScript(nativehashes.PolicyContract, "recoverFund", acc, token), 0, w.net.Single(p), cs)
+	// the preconditions (lock period in block time, "almost full" committee witness) are outside the model: the
+	// op line is completed with pre=ok|no from the real result in main.go
+	return &op{kind: kind, tx: tx, votes: true, model: model,
+		line: fmt.Sprintf("tx %s c=- %s %s treasury", sigList(fmt.Sprintf("k%d", p)), kind, w.tok(acc))}
 }
 
 func (w *world) opDeploy(si int) *op {
